@@ -151,6 +151,62 @@ fn eval(name: &str, a: &[Value]) -> Value {
             };
             crate::cfg::doc_to(&r)
         }
+        // {"expected": i32|null, "output_stream": "Stdout"|"Stderr"|"Combined"|null, "status": "Code"|.., "code": i32|null, "has_diff": bool}
+        "validate" => {
+            use scrut::output::ExitStatus;
+            let w = &a[0];
+            let mut config = scrut::config::TestCaseConfig::empty();
+            config.output_stream = match w["output_stream"].as_str() {
+                Some("Stdout") => Some(scrut::config::OutputStreamControl::Stdout),
+                Some("Stderr") => Some(scrut::config::OutputStreamControl::Stderr),
+                Some("Combined") => Some(scrut::config::OutputStreamControl::Combined),
+                _ => None,
+            };
+            let intended = if w["output_stream"].as_str() == Some("Stderr") { "e" } else { "o" };
+            let maker = scrut::expectation::ExpectationMaker::new(scrut::rules::registry::RuleRegistry::default());
+            let expectation = if w["has_diff"].as_bool().unwrap_or(false) { "zzz" } else { intended };
+            let testcase = scrut::testcase::TestCase {
+                title: "t".into(),
+                shell_expression: "true".into(),
+                expectations: vec![maker.parse(expectation).unwrap()],
+                exit_code: w["expected"].as_i64().map(|x| x as i32),
+                line_number: 1,
+                config,
+            };
+            let status = match w["status"].as_str().unwrap_or("Unknown") {
+                "Code" => ExitStatus::Code(w["code"].as_i64().unwrap_or(0) as i32),
+                "Timeout" => ExitStatus::Timeout(std::time::Duration::from_secs(1)),
+                "Skipped" => ExitStatus::Skipped,
+                "Detached" => ExitStatus::Detached,
+                _ => ExitStatus::Unknown,
+            };
+            let output = scrut::output::Output {
+                stdout: b"o\n".to_vec().into(),
+                stderr: b"e\n".to_vec().into(),
+                exit_code: status,
+            };
+            match testcase.validate(&output) {
+                Ok(()) => json!({"Ok": Value::Null, "diffed": if intended == "e" { "stderr" } else { "stdout" }}),
+                Err(scrut::testcase::TestCaseError::InvalidExitCode { actual, expected }) => {
+                    json!({"Err": {"InvalidExitCode": [actual, expected]}})
+                }
+                Err(scrut::testcase::TestCaseError::MalformedOutput(diff)) => {
+                    let mut diffed = "?";
+                    for l in &diff.lines {
+                        if let scrut::diff::DiffLine::UnexpectedLines { lines } = l {
+                            if let Some((_, bytes)) = lines.first() {
+                                diffed = if bytes.starts_with(b"e") { "stderr" } else { "stdout" };
+                            }
+                        }
+                    }
+                    json!({"Err": "MalformedOutput", "diffed": diffed})
+                }
+                Err(scrut::testcase::TestCaseError::InternalError(e)) => json!({"Err": format!("InternalError: {}", e)}),
+                Err(scrut::testcase::TestCaseError::Timeout) => json!({"Err": "Timeout"}),
+                Err(scrut::testcase::TestCaseError::Skipped) => json!({"Err": "Skipped"}),
+            }
+        }
+        "execute_all" => crate::exec::execute_all(&a[0]),
         "max_backtick_size" => {
             json!(scrut::generators::markdown::verif_hooks::max_backtick_size(&str_arg(&a[0])))
         }
